@@ -11,6 +11,8 @@ import (
 	"time"
 
 	"github.com/aundis/formula"
+
+	"verif/internal/ref"
 )
 
 // ParseOut is the observation of one ParseSourceCode call.
@@ -194,7 +196,7 @@ func dump(b *strings.Builder, e formula.Node) {
 	case *formula.LiteralExpression:
 		switch n.Token {
 		case formula.SK_NumberLiteral:
-			b.WriteString("num:" + n.Value)
+			b.WriteString("num:" + ref.CanonNum(n.Value))
 		case formula.SK_StringLiteral:
 			b.WriteString("str:" + strconv.Quote(n.Value))
 		default:
